@@ -119,7 +119,7 @@ fn triage_crash(id: &str, tier: &str, how: &str) -> i32 {
     println!("# the simulator process ended abnormally ({how}); locating the episode by bisection");
     let Some(check) = find(id) else { return 2 };
     let t = if tier == "thorough" { Tier::Thorough } else { Tier::Quick };
-    let n = env_u64("VERIF_EPISODES", check.episodes(t));
+    let n = env_u64("VERIF_EPISODES", check.episodes(t) / env_u64("VERIF_EPISODE_DIV", 1).max(1));
     let crashes = |lo: u64, hi: u64| child_status(&["range", id, tier, &lo.to_string(), &hi.to_string()]).is_err();
     // grow a prefix until it crashes (the first crashing episode usually has a low index)
     let (mut lo, mut hi) = (0u64, 64u64.min(n));
@@ -346,9 +346,10 @@ fn cmd_run(id: &str, tier: &str) -> i32 {
         }
     };
     let seed = env_u64("VERIF_SEED", 1);
-    let n = env_u64("VERIF_EPISODES", check.episodes(tier));
+    // VERIF_EPISODE_DIV: the repeat on the plain-release build runs the first part of the episodes
+    let n = env_u64("VERIF_EPISODES", check.episodes(tier) / env_u64("VERIF_EPISODE_DIV", 1).max(1));
     let w = workers();
-    println!("# {} {} seed={} episodes={} workers={}", id, tier.name(), seed, n, w);
+    println!("# {} {} seed={} episodes={} workers={} profile={}", id, tier.name(), seed, n, w, std::env::var("VERIF_PROFILE").unwrap_or_else(|_| "checked".into()));
     let known = match load_known(&std::env::var("VERIF_KNOWN").unwrap_or_else(|_| "/verif/known_findings.json".into())) {
         Ok(k) => k,
         Err(e) => {
